@@ -43,6 +43,18 @@ def _cpu_seconds(pid):
         return None
 
 
+def _any_thread_runnable(pid):
+    """True if some thread of the process is running or runnable (state R): starved on a loaded machine, not blocked."""
+    try:
+        for tid in os.listdir("/proc/%d/task" % pid):
+            with open("/proc/%d/task/%s/stat" % (pid, tid)) as f:
+                if f.read().rsplit(")", 1)[1].split()[0] == "R":
+                    return True
+    except Exception:
+        return True  # cannot tell: never call it a hang
+    return False
+
+
 def _cpu_seconds_tree(pid):
     """CPU seconds of a process including all its threads (and strace children when wrapped)."""
     total = _cpu_seconds(pid)
@@ -56,6 +68,14 @@ def _cpu_seconds_tree(pid):
     except Exception:
         pass
     return total
+
+
+def vanity_cap(ndigits, threads):
+    """Entropy-request cap that bounds a vanity search on logical steps. Base: P(a correct search needs more) < 1e-20. With two or
+    more workers the losers keep requesting entropy between the winner's send and the process exit, so a slack of 20000 requests per
+    worker (about half a minute of scheduling delay at full speed) is added: a loaded machine must never turn into an alarm."""
+    base = {0: 300, 1: 800, 2: 12000, 3: 190000}.get(ndigits, 190000 * 16 ** max(0, ndigits - 3))
+    return base if threads <= 1 else base + 20000 * min(threads, 16)
 
 
 AMBIENT = [
@@ -373,7 +393,7 @@ class Cli:
                     first = False
                     now = time.time()
                     cpu = _cpu_seconds_tree(p.pid)
-                    if last_cpu is None or cpu is None or cpu - last_cpu > 0.02:
+                    if last_cpu is None or cpu is None or cpu - last_cpu > 0.02 or _any_thread_runnable(p.pid):
                         last_cpu, last_change = cpu, now
                     if _rss_gb(p.pid) > RSS_LIMIT_GB:
                         p.kill()
